@@ -9,8 +9,14 @@ CHECKS = {
           "follows spars.cpp statement by statement: Put/Get/AddTo refine an abstract symmetric last-writer-wins map "
           "(order independent); MultA is the matrix-vector product; on reported convergence the PCG exit test was "
           "passed by the TRUE residual b-AV; SetValue, Periodicity and AntiPeriodicity leave a system whose solutions "
-          "are exactly those of the constrained system. Partial: termination of PCG/BiCG and floating-point rounding "
-          "are not proved (loop is fuelled; the guarded solve-log hook and an exact rational dense solve observe them)."),
+          "are exactly those of the constrained system (self ties included). For the complex-symmetric solver a theorem valid "
+          "for EVERY arithmetic, binary64 included: PBCGSolveMod reports success only if the RECOMPUTED residual b-AV of the "
+          "returned vector passed the tolerance test or the last restart failed to halve it (CSparseProofs.v; the restart loop "
+          "is the repair 793b1f5 of a defect this check found: the recursively updated residual had drifted to a true relative "
+          "residual of 2.6 for a reported 1e-8). Besides the op scripts, real problems of the three physics (harmonic magnetics "
+          "with solid series conductors from 400 Hz down to 1e-11 Hz) are solved with the guarded solve-log hook on: every solve "
+          "must leave a true relative residual <= 10*Precision. Partial: termination of PCG/BiCG and floating-point rounding "
+          "are not proved (loops are fuelled; the hook and an exact rational dense solve observe them)."),
     design_ref="DESIGN.md §5 C09",
     note=("Trusted: Coq kernel (vm_compute, primitive floats), real-number axioms of Coq.Reals "
           "(sig_forall_dec, sig_not_dec, functional_extensionality_dep), the hand-written model (tied to spars.cpp/"
@@ -29,7 +35,9 @@ CHECKS["C03"] = dict(
           "The finishing step is proved too: the row of a conductor with prescribed charge holds exactly when the flux leaving it "
           "(couplings to free unknowns plus the eliminated couplings to fixed nodes) equals the prescribed charge, the row of a "
           "conductor with prescribed voltage forces that voltage, and no other row changes. "
-          "Partial: the point-charge loop and the periodic-pair step are covered by correspondence and oracle only (periodic ties "
+          "The point-charge loop is proved as well (AsmEPoints.v): row i receives exactly 1e6*Depth_i*c*qp of its point property "
+          "when the node is still free, nothing else changes, a prescribed or conductor node receives no load. "
+          "Partial: the periodic-pair step is covered by correspondence and oracle only (periodic ties "
           "are C09's tie_system_equiv); rounding and PCG termination are not proved."),
     design_ref="DESIGN.md §5 C03",
     note=("Trusted: Coq kernel + real-number axioms; hand-written model tied to esolver.cpp by bit-level correspondence of the "
@@ -133,8 +141,10 @@ CHECKS["C11"] = dict(
           "unordered pair (reciprocity of mutual charges, heat flows, flux linkages); the element-level elimination of "
           "prescribed values is linear and leaves a matrix independent of the excitations; element loads are proportional to "
           "the sources. Real runs through femmcli on identical meshes: S1, S2, a*S1+b*S2, zero excitation, unit excitation of "
-          "each of two terminals, for electrostatics, heat and magnetics, planar, axisymmetric and time-harmonic; harmonic at "
-          "vanishing frequency vs static. Partial: uniqueness (non-singularity) is not proved; axisymmetric/harmonic magnetics "
+          "each of two terminals (terminal 2 of the magnetics cases is a series circuit of two solid bars; time-harmonic "
+          "reciprocity is that of the complex mutual impedance), for electrostatics, heat and magnetics, planar, axisymmetric "
+          "and time-harmonic; harmonic at vanishing frequency (omega*sigma*mu*L^2 = 1e-6 and 1e-10) vs static, planar and "
+          "axisymmetric, plain and in-plane laminated materials. Partial: uniqueness (non-singularity) is not proved; axisymmetric/harmonic magnetics "
           "have no assembly model, their reciprocity is checked on runs (axisymmetric magnetics to mesh accuracy only)."),
     design_ref="DESIGN.md §5 C11",
     note="Trusted: Coq kernel + Reals axioms; femmcli Lua route; tolerances 3e-6 (fields) / 2e-5 (terminal quantities) relative.",
